@@ -25,6 +25,8 @@ def run(ctx):
     scen += rc.cover_scenarios(ctx, 'OciRegistryCover_all.cfg', sample=1200 if quick else 60000)
     scen += rc.cover_scenarios(ctx, 'OciRegistryCover_broken.cfg', sample=300 if quick else None)
     scen += rc.cover_scenarios(ctx, 'OciRegistryCover_dual.cfg', sample=500 if quick else None)
+    # a tagged image with a layer nothing else names and a subject stored beside it: every delete out of those states
+    scen += rc.cover_scenarios(ctx, 'OciRegistryCover_subj.cfg')
     scen += rc.cover_scenarios(ctx, 'OciRegistryCover_up.cfg', sample=500 if quick else None, probe=UP_PROBE)
     sp = rc.write_scenarios(ctx, scen)
     td = ctx.sub('traces')
